@@ -125,7 +125,23 @@ pub fn history(index: u64, mut rng: Rng, tier: Tier) -> Outcome {
             }
             4 => {
                 let caller = pick_caller(&mut rng, pre.beneficiary);
-                let (r, _) = withdraw(v, &m, &caller, &atto(1 + rng.below(1u64 << 62)));
+                let (r, winv) = withdraw(v, &m, &caller, &atto(1 + rng.below(1u64 << 62)));
+                if let (true, Some(winv)) = (r.code.is_success(), &winv) {
+                    // the beneficiary's quota is spent by what it was actually paid, nothing else
+                    let mut paid = TokenAmount::zero();
+                    for i in winv.effective() {
+                        if Address::new_id(i.from) == m.addr && Address::new_id(i.to_id().unwrap_or(u64::MAX)) == pre.beneficiary && i.method == fvm_shared::METHOD_SEND {
+                            paid += i.value.clone();
+                        }
+                    }
+                    let after = snap_miner(v, &m.addr).unwrap().info;
+                    if after.beneficiary == pre.beneficiary && pre.beneficiary != pre.owner {
+                        o.count("quota_charges_checked");
+                        if &after.term.1 - &pre.term.1 != paid {
+                            o.violate("quota", "C13/quota_charged_ne_paid", format!("step {step}: WithdrawBalance paid {paid} to the beneficiary but its used quota moved {} -> {}", pre.term.1, after.term.1));
+                        }
+                    }
+                }
                 (format!("WithdrawBalance by {caller} -> {}", r.code), caller, MinerMethod::WithdrawBalance as u64, r.code.is_success())
             }
             5 => {
@@ -358,7 +374,7 @@ fn judge(pre: &InfoSnap, post: &InfoSnap, epoch: ChainEpoch, caller: Option<Addr
 pub fn run(cfg: &Cfg) -> i32 {
     let mut agg = Agg::new(cfg);
     let tier = cfg.tier;
-    agg.run_parallel("handover", tier.pick(200, 6000), Duration::from_secs(tier.pick(200, 1500)), |i, rng| history(i, rng, tier));
+    agg.run_parallel("handover", tier.pick(3000, 60000), Duration::from_secs(tier.pick(200, 1500)), |i, rng| history(i, rng, tier));
     agg.finish(
         "exploration",
         "one history = one real miner (cron active in two thirds of the histories) and 45-70 messages: ChangeOwnerAddress proposals / confirmations / mismatching confirmations, ChangeWorkerAddress (new worker, control lists), ConfirmChangeWorkerAddress, ChangeBeneficiary proposals / approvals / altered terms / reverting to the owner, withdrawals and other methods, issued by owner, proposed owner, worker, pending worker, control addresses, beneficiary, nominee and strangers, with epoch advances aimed at the worker-key delay +-1 and beneficiary expiry +-1; every change of owner / worker / control / beneficiary / pending data must be a transition the protocol automata allow for the observed caller, rejected calls change nothing, rights are probed on snapshots; non-trivial = at least 4 info transitions",
